@@ -9,13 +9,13 @@ Tr == JsonDeserialize(IOEnv.TRACE_FILE)
 
 CONSTANTS Judge,
           Dev_C12_InputMomentum, Dev_C12_ScaleOne, Dev_C10_GroupSizeLost, Dev_C10_LayerNormTarget, Dev_C10_ScaleDtype,
-          Dev_C09_DeepCopyQBits, Dev_C08_ScaleDtype, Dev_C08_CopyPlain
+          Dev_C09_DeepCopyQBits, Dev_C08_ScaleDtype, Dev_C08_CopyPlain, Dev_C07_F16Float8Act
 
 VARIABLES tid, l, dev,
           open,      \* number of calibration contexts currently open
           base,      \* globals at Init (registries / mode stack before the history)
           upd,       \* per module index: <<number of input-scale updates, number of output-scale updates>>
-          qargs      \* arguments of the Quantize action of this history
+          qargs      \* [ms |-> stack of the momenta of the open contexts]
 
 Ev == Tr[tid][l]
 Is(a) == l <= Len(Tr[tid]) /\ Ev.act = a
@@ -183,16 +183,16 @@ CalibRecOK(e, r, mm) ==
     /\ (("out_new" \in DOMAIN r) /\ upd[i][2] = 0) => ~r.out_saturates                                   \* NoSaturationAfterOneBatch
 CalibOK(e) ==
   /\ e.outcome = "ok"
-  /\ e.n_ctx = 1 => \A k \in 1..Len(e.calib) : CalibRecOK(e, e.calib[k], qargs.mm)
+  /\ (e.n_ctx = 1 /\ Len(qargs.ms) = 1) => \A k \in 1..Len(e.calib) : CalibRecOK(e, e.calib[k], MomInt(qargs.ms[1]))
 C12OK(e) == e.act = "CalibBatch" => CalibOK(e)
 \* deviations of the pinned tree
 InputMomentumSig(e) ==
-  e.act = "CalibBatch" /\ e.outcome = "ok" /\ e.n_ctx = 1 /\
+  e.act = "CalibBatch" /\ e.outcome = "ok" /\ e.n_ctx = 1 /\ Len(qargs.ms) = 1 /\
   \A k \in 1..Len(e.calib) :
      LET r == e.calib[k] i == ModuleIndex(e, r.name) fmt == e.mods[i].dtype IN
      (r.aq # "none") =>
        /\ ("in_new" \in DOMAIN r) => ScaleLaw(r.insc_before, r.in_new, r.insc_after, upd[i][1], 966367642, fmt)
-       /\ ("out_new" \in DOMAIN r) => ScaleLaw(r.outsc_before, r.out_new, r.outsc_after, upd[i][2], qargs.mm, fmt)
+       /\ ("out_new" \in DOMAIN r) => ScaleLaw(r.outsc_before, r.out_new, r.outsc_after, upd[i][2], MomInt(qargs.ms[1]), fmt)
 ScaleOneSig(e) ==
   e.act = "CalibBatch" /\ e.outcome = "ok" /\
   \E k \in 1..Len(e.calib) : (e.calib[k].aq # "none" /\ (IsOne(e.calib[k].insc_before) \/ IsOne(e.calib[k].outsc_before)))
@@ -206,8 +206,11 @@ OpenAfter(e) ==
 UpdAfter(e) ==
   IF e.act \in {"CalibBatch", "RaiseIn"} /\ "calib" \in DOMAIN e
   THEN [i \in DOMAIN upd |->
-          LET rs == {k \in 1..Len(e.calib) : e.calib[k].name = e.mods[i].name /\ e.calib[k].aq # "none" /\ "insc_after" \in DOMAIN e.calib[k]} IN
-          <<upd[i][1] + Cardinality(rs) * e.n_ctx, upd[i][2] + Cardinality(rs) * e.n_ctx>>]
+          \* the input scale is updated by the global pre-hook (even if the module's forward then raises),
+          \* the output scale by the global post-hook
+          LET ri == {k \in 1..Len(e.calib) : e.calib[k].name = e.mods[i].name /\ e.calib[k].aq # "none"}
+              ro == {k \in ri : "outsc_after" \in DOMAIN e.calib[k]} IN
+          <<upd[i][1] + Cardinality(ri) * e.n_ctx, upd[i][2] + Cardinality(ro) * e.n_ctx>>]
   ELSE IF e.act = "Quantize" THEN [i \in 1..Len(e.mods) |-> <<0, 0>>]
   ELSE upd
 
@@ -218,6 +221,18 @@ JudgeOK(e) ==
 DevSig(d, e) ==
   CASE d = "Dev_C12_InputMomentum" -> Judge = "C12" /\ InputMomentumSig(e)
     [] d = "Dev_C12_ScaleOne" -> Judge = "C12" /\ ScaleOneSig(e)
+    [] d = "Dev_C07_F16Float8Act" ->
+         \* float16 model with float8 activations AND a non-finite number actually observed in this step
+         /\ Tr[tid][1].dtype = "float16"
+         /\ \E i \in 1..Len(e.mods) : e.mods[i].q /\ e.mods[i].aq \in {"qfloat8", "qfloat8_e4m3fn", "qfloat8_e5m2"}
+         /\ \/ (e.act = "CalibBatch" /\ \E k \in 1..Len(e.calib) :
+                   \/ ("out_new" \in DOMAIN e.calib[k] /\ e.calib[k].out_new.s = 2)
+                   \/ ("in_new" \in DOMAIN e.calib[k] /\ e.calib[k].in_new.s = 2)
+                   \/ ("outsc_before" \in DOMAIN e.calib[k] /\ e.calib[k].outsc_before.s = 2)
+                   \/ ("insc_before" \in DOMAIN e.calib[k] /\ e.calib[k].insc_before.s = 2))
+            \/ (e.act = "Forward" /\ e.outcome = "ok" /\ (~e.out.finite \/ \E k \in 1..Len(e.recipes) : \E j \in 1..Len(e.recipes[k].out) : e.recipes[k].out[j].s = 2 \/ e.recipes[k].ref[j].s = 2))
+            \/ (e.act \in {"Freeze", "DeepCopy"} /\ e.outcome = "ok" /\ \E k \in 1..Len(e.out_before) : ~e.out_before[k].finite)
+            \/ (e.act = "Load" /\ e.outcome = "ok" /\ \E k \in 1..Len(e.out_saved) : ~e.out_saved[k].finite)
     [] d = "Dev_C09_DeepCopyQBits" -> Judge = "C09" /\ DeepCopyDevSig(e)
     [] d \in {"Dev_C10_GroupSizeLost", "Dev_C10_LayerNormTarget", "Dev_C10_ScaleDtype"} -> Judge = "C10" /\ C10DevSig(d, e)
     [] d = "Dev_C08_ScaleDtype" -> Judge \in {"C08", "C11"} /\ e.act = "Forward" /\ e.outcome = "ok"
@@ -226,15 +241,16 @@ DevSig(d, e) ==
                                   /\ e.outcome \in {"AttributeError", "AssertionError"}
                                   /\ \E i \in 1..Len(e.mods) : e.mods[i].kind = "Conv2d" /\ e.mods[i].hyper.padding_mode = "circular" /\ e.mods[i].aq # "none"
     [] OTHER -> FALSE
-DevOn == {d \in {"Dev_C12_InputMomentum", "Dev_C12_ScaleOne", "Dev_C10_GroupSizeLost", "Dev_C10_LayerNormTarget", "Dev_C10_ScaleDtype",
+DevOn == {d \in {"Dev_C07_F16Float8Act", "Dev_C12_InputMomentum", "Dev_C12_ScaleOne", "Dev_C10_GroupSizeLost", "Dev_C10_LayerNormTarget", "Dev_C10_ScaleDtype",
                  "Dev_C09_DeepCopyQBits", "Dev_C08_ScaleDtype", "Dev_C08_CopyPlain"} :
             CASE d = "Dev_C12_InputMomentum" -> Dev_C12_InputMomentum [] d = "Dev_C12_ScaleOne" -> Dev_C12_ScaleOne
+              [] d = "Dev_C07_F16Float8Act" -> Dev_C07_F16Float8Act
               [] d = "Dev_C10_GroupSizeLost" -> Dev_C10_GroupSizeLost [] d = "Dev_C10_LayerNormTarget" -> Dev_C10_LayerNormTarget
               [] d = "Dev_C10_ScaleDtype" -> Dev_C10_ScaleDtype [] d = "Dev_C09_DeepCopyQBits" -> Dev_C09_DeepCopyQBits
               [] d = "Dev_C08_ScaleDtype" -> Dev_C08_ScaleDtype [] d = "Dev_C08_CopyPlain" -> Dev_C08_CopyPlain}
 
 TInit == /\ tid \in 1..Len(Tr) /\ l = 1 /\ dev = {} /\ open = 0
-         /\ base = [pre_hooks |-> 0, post_hooks |-> 0, modes |-> 0] /\ upd = <<>> /\ qargs = [mm |-> 0]
+         /\ base = [pre_hooks |-> 0, post_hooks |-> 0, modes |-> 0] /\ upd = <<>> /\ qargs = [ms |-> <<>>]
 
 TStart == /\ Is("Init") /\ l' = l + 1
           /\ base' = Ev.globals /\ upd' = [i \in 1..Len(Ev.mods) |-> <<0, 0>>]
@@ -246,7 +262,10 @@ TCrash == /\ Is("Crash") /\ FALSE /\ UNCHANGED <<tid, l, dev, open, base, upd, q
 TStep ==
   /\ l <= Len(Tr[tid]) /\ Ev.act \notin {"Init", "Crash"}
   /\ open' = OpenAfter(Ev)
-  /\ qargs' = IF Ev.act = "EnterCalib" THEN [mm |-> MomInt(Ev.args.momentum)] ELSE qargs
+  /\ qargs' = CASE Ev.act = "EnterCalib" /\ Ev.outcome = "ok" -> [ms |-> Append(qargs.ms, Ev.args.momentum)]
+                 [] Ev.act = "ExitCalib" /\ Ev.outcome = "ok" /\ qargs.ms # <<>> -> [ms |-> SubSeq(qargs.ms, 1, Len(qargs.ms) - 1)]
+                 [] Ev.act = "RaiseIn" -> [ms |-> <<>>]
+                 [] OTHER -> qargs
   /\ \/ (JudgeOK(Ev) = TRUE /\ dev' = dev)
      \/ \E d \in DevOn : ((~JudgeOK(Ev) /\ DevSig(d, Ev)) = TRUE /\ dev' = dev \cup {d})
   /\ upd' = UpdAfter(Ev)
